@@ -78,7 +78,7 @@ def gen_universe(rng):
                 body.append(rng.choice(ext))
             elif c == "chain" and t > 1:
                 p = rng.range(1, t - 1)
-                body.append(p * 10 + rng.below(3))
+                body.append(p * 10 + rng.below(5 if p % 4 == 3 else 3))   # TxFlow.nouts: txs 3, 7, .. have 5 outputs
             elif c == "private":
                 body.append(9000 + t * 10)
             elif c == "coinbase":
@@ -303,6 +303,20 @@ def pattern_cases():
                 ops.append(["tx", second, 1])
             ops += [["block", 1, 0, [second], 1], ["unconf"], ["delaycheck"], ["tx", first, 0], ["block", 2, 1, [4], 1]]
             res.append((U, ops))
+    # chained spends of a stored (relevant, delivered) parent with MORE outputs than the spending tx (tx 3 has five): the
+    # spent output of index 3 / 4 must be the parent's, index 5 is out of range; from a peer, first seen in a block, and
+    # for a parent that was itself first seen in the same block
+    C = Universe()
+    C.add(3, [1000], True)
+    C.add(4, [33], True)
+    C.add(5, [34, 30], True)
+    C.add(6, [35, 1001], True)
+    C.add(1, [32], False)
+    for ops in ([["tx", 3, 0], ["tx", 4, 0], ["tx", 5, 1], ["tx", 6, 0], ["tx", 1, 0]],
+                [["tx", 3, 0], ["block", 1, 0, [4, 6], 1], ["tx", 5, 0]],
+                [["block", 1, 0, [3, 4], 1], ["block", 2, 1, [5, 6], 1]],
+                [["block", 1, 0, [3], 1], ["tx", 4, 2], ["restart"], ["setinsync", 1], ["tx", 5, 0], ["block", 2, 1, [4, 5, 6], 1]]):
+        res.append((C, [["setinsync", 1]] + ops + [["unconf"]]))
     # restart at every position of a delivery / safe / confirm history
     hist = [["setinsync", 1], ["inv", 4, 1], ["tx", 4, 1], ["tx", 1, 0], ["advance", 75000], ["delaycheck"],
             ["tx", 2, 1], ["block", 1, 0, [4], 1], ["tx", 4, 0], ["advance", 75000], ["delaycheck"], ["block", 2, 1, [1], 1],
@@ -635,6 +649,36 @@ def race_extra(tier, rng, workdir):
         elif [o for o in r[2:]] != [o for o in tw[3:]]:
             failures.append(race_rec(c, r, 1, 106, "after the block / tx-thread race the node differs from 'block, then tx message' "
                                      "(unconfirmed set / later notifications): %s instead of %s" % (r[2:], tw[3:])))
+    # a tx that is NOT in the block, taken by the tx thread while ProcessBlock holds the tx repository: it must wait for
+    # the block, then be delivered and stay in the unconfirmed set (the block's finalize must not drop it), so that the
+    # later block that contains it sends the update with that block's proof
+    ucases, utwins = [], []
+    for txids, t, src in (([3], 1, 0), ([2, 3], 4, 1), ([], 2, 0), ([4], 1, 1)):
+        tail = [["unconf"], ["block", 2, 1, [3, t] if 3 not in txids else [t], 1], ["unconf"], ["delaycheck"], ["unconf"]]
+        ucases.append({"cfg": bcfg, "ops": [["setinsync", 1], ["race_block_conflict", 1, 0, txids, t, src]] + tail})
+        utwins.append({"cfg": bcfg, "ops": [["setinsync", 1], ["block", 1, 0, txids, 1], ["tx", t, src]] + tail})
+    ures, _ = vlib.run_harness("txflow", ucases + utwins, workdir, tag="unrelatedrace", timeout=300)
+    ureached = 0
+    for c, r, tw in zip(ucases, ures[:len(ucases)], ures[len(ucases):]):
+        ob = r[1]
+        t = c["ops"][1][4]
+        ureached += ob[1] if len(ob) > 1 else 0
+        if ob[0] != 0 or (len(ob) > 2 and ob[2] == 2) or (len(ob) > 3 and (ob[2] != 0 or ob[3] != 0)):
+            failures.append(race_rec(c, r, 1, 105, "block / tx-thread race: an operation failed or got stuck (%s)" % ob[:4]))
+            continue
+        evs = [e for e in parse_events(ob[4:]) if e["t"] == t]
+        atblock = [e for e in parse_events(r[3][1:]) if e["t"] == t] if r[3] and r[3][0] == 0 else []
+        news = [e for e in evs + atblock if e["kind"] == 1]
+        if len(news) != 1:
+            failures.append(race_rec(c, r, 1, 104, "tx %d, taken by the tx thread during an unrelated block, was delivered as new %d times"
+                                     % (t, len(news))))
+        elif not any(e["depth"] == 0 and e["proof"] == 2 for e in atblock):
+            failures.append(race_rec(c, r, 3, 108, "tx %d was delivered while an unrelated block was being processed; the later block that "
+                                     "contains it sent no notification with its merkle proof (the unrelated block's finalize dropped the "
+                                     "tx from the unconfirmed set): %s" % (t, atblock)))
+        elif [o for o in r[2:]] != [o for o in tw[3:]]:
+            failures.append(race_rec(c, r, 1, 106, "after the block / tx-thread race the node differs from 'block, then tx message' "
+                                     "(unconfirmed set / later notifications): %s instead of %s" % (r[2:], tw[3:])))
     # a double spend of a delivered tx handled by the tx thread while the block that confirms that tx is inside
     # ProcessBlock (announcement being sent, tx repository locked): both threads must finish (lock order), the loser
     # is reported unsafe / cancelled, the confirmed one is never reported safe after unsafe
@@ -669,13 +713,14 @@ def race_extra(tier, rng, workdir):
                     bad = (103, "tx %d reported safe after it was reported unsafe" % e["t"])
         if bad:
             failures.append(race_rec(c, r, 2, bad[0], "block / conflicting tx race: " + bad[1]))
-    return {"failures": failures, "evaluations": len(cases) + len(bcases) + len(ecases) + len(ccases),
+    return {"failures": failures, "evaluations": len(cases) + len(bcases) + len(ecases) + len(ucases) + len(ccases),
             "coverage": {"reannounced_with_orphaned_proof_not_judged": stale_coverage(),
                          "rmw_race_scenarios": len(cases), "rmw_race_pause_point_reached": reached["race_delay"],
                          "send_race_pause_point_reached": reached["race_send"],
                          "read_race_pause_point_reached": reached["race_read"],
                          "block_tx_race_scenarios": len(bcases), "block_tx_race_pause_point_reached": breached,
                          "early_block_tx_race_scenarios": len(ecases), "early_block_tx_race_pause_point_reached": ereached,
+                         "unrelated_block_tx_race_scenarios": len(ucases), "unrelated_block_tx_race_pause_point_reached": ureached,
                          "block_conflict_race_scenarios": len(ccases), "block_conflict_race_pause_point_reached": creached}}
 
 
